@@ -118,7 +118,7 @@ def check_track(ctx, t, m, hist, w):
     return ok and okb
 
 
-ITEMS = ["rest", "name", "note", "list", "container", "low", "high"]
+ITEMS = ["rest", "name", "note", "list", "container", "low", "high", "strlist", "notelist"]
 
 
 def make_item(rng, kind, instrument):
@@ -137,6 +137,16 @@ def make_item(rng, kind, instrument):
         nc = NoteContainer(list(names))
         ps = sorted(pitch(x.name, x.octave) for x in nc.notes)
         return list(names), ps, all(lo <= pitch(x, 4) <= hi for x in names)
+    if kind in ("strlist", "notelist"):
+        # a plain list of 'Name-octave' strings (or of Notes), three to five of them, with at most one of them far outside
+        # every range and sitting at any position of the list
+        pool = [("C", 4), ("E", 4), ("G", 4), ("D", 5), ("A", 3), ("F", 5), ("B", 4), ("E", 5)]
+        picks = rng.sample(pool, rng.randint(2, 4))
+        if rng.random() < 0.5:
+            picks.insert(rng.randrange(len(picks) + 1), rng.choice([("D", 9), ("C", 0), ("A", 8), ("F", 1)]))
+        ps = sorted(set(pitch(n, o) for n, o in picks))
+        obj = ["%s-%d" % (n, o) for n, o in picks] if kind == "strlist" else [Note(n, o) for n, o in picks]
+        return obj, ps, all(lo <= p <= hi for p in ps)
     if kind == "container":
         nc = NoteContainer([Note(n, o) for n, o in rng.sample([("C", 4), ("E", 4), ("G", 5), ("D", 5), ("A", 4), ("Bb", 5)], rng.randint(1, 4))])
         ps = sorted(pitch(x.name, x.octave) for x in nc.notes)
